@@ -212,7 +212,10 @@ def run_scenario(sc, timeout=40):
         def call():
             return asyncio.run(d()) if sc["is_async"] else d()
     else:
-        ex = d.executor(root_nodes=ids(sel.get("R")), exclude_nodes=ids(sel.get("X")), target_nodes=ids(sel.get("T")))
+        try:
+            ex = d.executor(root_nodes=ids(sel.get("R")), exclude_nodes=ids(sel.get("X")), target_nodes=ids(sel.get("T")))
+        except BaseException as e:  # noqa: BLE001  the selection itself is C12's business (slice G)
+            return dict(skipped="executor-creation-raised:" + type(e).__name__)
         graph_nodes = {int(x[1:]) for x in ex.graph.nodes if x.startswith("n") and x[1:].isdigit()}
         real_cp = {k: ex.graph.compound_priority[k] for k in list(ex.graph.nodes)}
 
@@ -276,7 +279,7 @@ def emit(sid, sc, obs, cp_mode="real", strict_exc=False):
         else:
             out.append("X %d" % pos[f])
     else:
-        out.append("X ?" if strict_exc else "A")
+        out.append("X ?")     # a hang is not a run of the model (C09_bound): never accepted
     out.append("E")
     return "\n".join(out) + "\n"
 
@@ -420,6 +423,20 @@ def monitors(sc, obs):
                 rtop = max(rcp(m) for m in ready)
                 if any(specs[m]["seq"] and (spec[m] >= top or rcp(m) >= rtop) for m in poss):
                     ok = True
+            if ok and mode == "ALL_COMPLETED" and len(waited) >= 2 and not any(specs[m]["seq"] for m in inflight):
+                # the scheduler will stay blocked until ALL of them finish: if one completion alone already
+                # leaves a free slot next to a ready node, it idles in between (FIRST_COMPLETED is required)
+                for t in waited:
+                    dn = tnode[t]
+                    if dn is None or specs[dn]["fail"]:
+                        continue
+                    obs2 = observed | {dn}
+                    newly = [m for m in sorted(selected) if m not in started and active[m]
+                             and all(active[p] and p in obs2 for p in preds_in(m))]
+                    if newly and not any(specs[m]["seq"] for m in newly):
+                        bad("C08", "blocked-until-all-finish", kind=kind, waited=[tnode[x] for x in waited],
+                            first_done=dn, ready_then=newly, maxc=maxc)
+                        break
             if not ok:
                 sig = "idle-block"
                 if kind == "conc" and prev_wait == "async":
